@@ -145,4 +145,176 @@ example : extractSuffixIndex (bytesOfStr "x[ -1 : -8 ]") = (bytesOfStr "x", some
 example : parseName (bytesOfStr "mem[3][1] [7:0]") = some (bytesOfStr "[1]", some { msb := 7, lsb := 0 }, [bytesOfStr "mem", bytesOfStr "[3]"]) := by decide
 example : idToInt [33] = some 0 ∧ idToInt [34, 33] = some 95 := by decide
 
+/-! ### extra bracket groups: array scopes (`parse_name`) -/
+
+theorem rev_induction {α : Type} (P : List α → Prop) (h0 : P []) (hs : ∀ r g, P r → P (r ++ [g])) : ∀ l, P l := by
+  intro l
+  have : ∀ n, ∀ l : List α, l.length = n → P l := by
+    intro n
+    induction n with
+    | zero => intro l hl; have := List.length_eq_zero_iff.mp hl; subst this; exact h0
+    | succ n ih =>
+      intro l hl
+      have hne : l ≠ [] := by intro e; subst e; simp at hl
+      rw [← List.dropLast_concat_getLast hne]
+      exact hs _ _ (ih _ (by simp [hl]))
+  exact this _ l rfl
+
+/-- a bracket group `[content]`, the content free of brackets -/
+def grp (c : List Nat) : List Nat := [91] ++ c ++ [93]
+
+/-- base name followed by bracket groups, each after optional spaces -/
+def withGroups (b : List Nat) : List (List Nat × List Nat) → List Nat
+  | [] => b
+  | (sp, c) :: r => withGroups (b ++ sp ++ grp c) r
+
+theorem withGroups_snoc (b : List Nat) (gs : List (List Nat × List Nat)) (sp c : List Nat) :
+    withGroups b (gs ++ [(sp, c)]) = withGroups b gs ++ sp ++ grp c := by
+  induction gs generalizing b with
+  | nil => rfl
+  | cons g r ih => obtain ⟨sp', c'⟩ := g; simp only [List.cons_append, withGroups]; exact ih _
+
+theorem grp_getLast (c : List Nat) : (grp c).getLast? = some 93 := by
+  unfold grp
+  rw [List.getLast?_append]
+  simp
+
+theorem findLast_go_none (needle : Nat) : ∀ (l : List Nat) (pos : Nat) (best : Option Nat), needle ∉ l →
+    findLast.go needle l pos best = best := by
+  intro l
+  induction l with
+  | nil => intro _ _ _; rfl
+  | cons a r ih =>
+    intro pos best h
+    simp only [findLast.go]
+    have ha : a ≠ needle := fun e => h (by simp [e])
+    simp only [ha, if_false]
+    exact ih _ _ (fun hm => h (List.mem_cons_of_mem _ hm))
+
+theorem findLast_go_last (needle : Nat) : ∀ (A C : List Nat) (pos : Nat) (best : Option Nat), needle ∉ C →
+    findLast.go needle (A ++ needle :: C) pos best = some (pos + A.length) := by
+  intro A
+  induction A with
+  | nil =>
+    intro C pos best hC
+    simp only [List.nil_append, findLast.go, if_true, List.length_nil, Nat.add_zero]
+    exact findLast_go_none needle C _ _ hC
+  | cons a r ih =>
+    intro C pos best hC
+    simp only [List.cons_append, findLast.go, List.length_cons]
+    rw [ih C _ _ hC]
+    congr 1; omega
+
+theorem findLast_grp (N sp c : List Nat) (hc : 91 ∉ c) :
+    findLast (N ++ sp ++ grp c) 91 = some (N ++ sp).length := by
+  unfold findLast grp
+  have : N ++ sp ++ ([91] ++ c ++ [93]) = (N ++ sp) ++ 91 :: (c ++ [93]) := by simp
+  rw [this, findLast_go_last 91 (N ++ sp) (c ++ [93]) 0 none (by simp [hc])]
+  simp
+
+theorem rightSp_spaces (sp R : List Nat) (hs : ∀ x ∈ sp, x = 32) :
+    trimRight.rightSp (sp ++ R) = trimRight.rightSp R := by
+  induction sp with
+  | nil => rfl
+  | cons a r ih =>
+    have ha : a = 32 := hs a (by simp)
+    simp only [List.cons_append, trimRight.rightSp, ha, if_true]
+    exact ih (fun x hx => hs x (List.mem_cons_of_mem _ hx))
+
+theorem rightSp_id (R : List Nat) (h : R.head? ≠ some 32) : trimRight.rightSp R = R := by
+  cases R with
+  | nil => rfl
+  | cons a r =>
+    have : a ≠ 32 := fun e => h (by simp [e])
+    simp [trimRight.rightSp, this]
+
+theorem trimRight_spaces (N sp : List Nat) (hs : ∀ x ∈ sp, x = 32) (hN : N.getLast? ≠ some 32) :
+    trimRight (N ++ sp) = N := by
+  unfold trimRight
+  rw [List.reverse_append, rightSp_spaces _ _ (fun x hx => hs x (List.mem_reverse.mp hx)),
+    rightSp_id _ (by rw [List.head?_reverse]; exact hN), List.reverse_reverse]
+
+theorem withGroups_last (b : List Nat) (gs : List (List Nat × List Nat)) (hb : b.getLast? ≠ some 32) :
+    (withGroups b gs).getLast? ≠ some 32 := by
+  refine rev_induction (fun gs => (withGroups b gs).getLast? ≠ some 32) hb ?_ gs
+  intro r g _
+  obtain ⟨sp, c⟩ := g
+  rw [withGroups_snoc, List.getLast?_append, grp_getLast]
+  simp
+
+/-- **`parse_name` splits trailing bracket groups**: peeling groups off the end of `base [g1] [g2] … [gn]` (any spaces in
+front of each group, group contents free of brackets, the base not ending in `]` or a space) returns the base and the
+groups, last first -/
+theorem groups_spec (b : List Nat) (hb1 : b.getLast? ≠ some 93) (hb2 : b.getLast? ≠ some 32) :
+    ∀ (gs : List (List Nat × List Nat)), (∀ g ∈ gs, (∀ x ∈ g.1, x = 32) ∧ 91 ∉ g.2 ∧ 93 ∉ g.2) →
+    ∀ (fuel : Nat) (acc : List (List Nat)), gs.length < fuel →
+      parseName.groups fuel (withGroups b gs) acc = some (b, acc ++ gs.reverse.map (fun g => grp g.2)) := by
+  refine rev_induction (fun gs => (∀ g ∈ gs, (∀ x ∈ g.1, x = 32) ∧ 91 ∉ g.2 ∧ 93 ∉ g.2) →
+    ∀ (fuel : Nat) (acc : List (List Nat)), gs.length < fuel →
+      parseName.groups fuel (withGroups b gs) acc = some (b, acc ++ gs.reverse.map (fun g => grp g.2))) ?_ ?_
+  · intro _ fuel acc hf
+    cases fuel with
+    | zero => simp at hf
+    | succ f => simp [parseName.groups, withGroups, hb1]
+  · intro r g ih hg fuel acc hf
+    obtain ⟨sp, c⟩ := g
+    have hgc := hg (sp, c) (by simp)
+    cases fuel with
+    | zero => simp at hf
+    | succ f =>
+      rw [withGroups_snoc]
+      have hlast : (withGroups b r ++ sp ++ grp c).getLast? = some 93 := by
+        rw [List.getLast?_append, grp_getLast]; simp
+      simp only [parseName.groups, hlast, if_true]
+      rw [findLast_grp _ _ _ hgc.2.1]
+      simp only
+      rw [show (withGroups b r ++ sp ++ grp c).take (withGroups b r ++ sp).length = withGroups b r ++ sp by
+            rw [List.take_left'] ; rfl,
+          show (withGroups b r ++ sp ++ grp c).drop (withGroups b r ++ sp).length = grp c by
+            rw [List.drop_left'] ; rfl]
+      rw [trimRight_spaces _ _ hgc.1 (withGroups_last b r hb2)]
+      rw [ih (fun g' hg' => hg g' (by simp [hg'])) f _ (by simp at hf; omega)]
+      simp
+
+theorem withGroups_length (b : List Nat) (gs : List (List Nat × List Nat)) : gs.length ≤ (withGroups b gs).length := by
+  refine rev_induction (fun gs => gs.length ≤ (withGroups b gs).length) (by simp) ?_ gs
+  intro r g ih
+  obtain ⟨sp, c⟩ := g
+  rw [withGroups_snoc]
+  simp [grp] at ih ⊢
+  omega
+
+/-- **extra bracket groups become array scopes**: a variable written `base [g1] … [gn] [msb:lsb]` (n ≥ 1; any spaces in
+front of each group and around the bit range; group contents free of brackets; the base not ending in `]` or a space;
+negative bounds allowed) is declared as the variable `[gn]` with the bit range `msb:lsb`, inside the array scopes `base`,
+`[g1]`, …, `[g(n-1)]` — outermost first -/
+theorem C09_array_scopes (b : List Nat) (hb1 : b.getLast? ≠ some 93) (hb2 : b.getLast? ≠ some 32)
+    (r : List (List Nat × List Nat)) (sp c : List Nat)
+    (hg : ∀ g ∈ r ++ [(sp, c)], (∀ x ∈ g.1, x = 32) ∧ 91 ∉ g.2 ∧ 93 ∉ g.2)
+    (sp1 sp2 : List Nat) (n1 n2 : Bool) (d1 d2 : List Nat)
+    (hs1 : isSpaces sp1) (hs2 : isSpaces sp2) (hd1 : isDigits d1) (hd2 : isDigits d2) :
+    parseName (withGroups b (r ++ [(sp, c)]) ++ sp1 ++ [91] ++ numTxt n1 d1 ++ [58] ++ numTxt n2 d2 ++ [93] ++ sp2) =
+      some (grp c, some (mkIndex (sval n1 d1) (sval n2 d2)), b :: r.map (fun g => grp g.2)) := by
+  have hname : withGroups b (r ++ [(sp, c)]) = (withGroups b r ++ sp ++ [91] ++ c) ++ [93] := by
+    rw [withGroups_snoc]; simp [grp]
+  have hx := C09_range_parse (withGroups b r ++ sp ++ [91] ++ c) 93 sp1 sp2 n1 n2 d1 d2 (by decide) hs1 hs2 hd1 hd2
+  rw [← hname] at hx
+  unfold parseName
+  have hne : (withGroups b (r ++ [(sp, c)]) ++ sp1 ++ [91] ++ numTxt n1 d1 ++ [58] ++ numTxt n2 d2 ++ [93] ++ sp2).isEmpty = false := by
+    simp
+  rw [hne]
+  simp only [Bool.false_eq_true, if_false, hx]
+  have hfuel : (r ++ [(sp, c)]).length <
+      (withGroups b (r ++ [(sp, c)]) ++ sp1 ++ [91] ++ numTxt n1 d1 ++ [58] ++ numTxt n2 d2 ++ [93] ++ sp2).length + 1 := by
+    have := withGroups_length b (r ++ [(sp, c)])
+    simp only [List.length_append] at this ⊢
+    omega
+  rw [groups_spec b hb1 hb2 (r ++ [(sp, c)]) hg _ [] hfuel]
+  simp
+
+
+/-- non-vacuity: `mem [3][1] [7:0]` is the variable `[1]` with range 7:0 inside the array scopes `mem`, `[3]` -/
+example : parseName (bytesOfStr "mem [3][1] [7:0]") =
+    some (bytesOfStr "[1]", some { msb := 7, lsb := 0 }, [bytesOfStr "mem", bytesOfStr "[3]"]) := by decide
+
 end Wellen.VcdHeader
